@@ -40,7 +40,7 @@ const POOL: [(&str, u8); 19] = [
 ];
 const TYPE_ONLY_EXTRA: [&str; 2] = ["#[derive_ex(Debug)]", "#[derive_ex(Hash, bound(T))]"];
 
-const LISTS: [&str; 9] = ["Clone", "Debug", "Default", "PartialEq", "Ord, PartialOrd, Eq, PartialEq", "Hash", "Clone, Debug, Default", "PartialOrd, PartialEq, Hash", "Copy, Clone, Debug, Default, Ord, PartialOrd, Eq, PartialEq, Hash"];
+const LISTS: [&str; 11] = ["Clone", "Debug", "Default", "PartialEq", "Ord, PartialOrd, Eq, PartialEq", "Hash", "Clone, Debug, Default", "PartialOrd, PartialEq, Hash", "Copy, Clone, Debug, Default, Ord, PartialOrd, Eq, PartialEq, Hash", "PartialOrd", "Eq"];
 const VIS: [&str; 4] = ["", "pub", "pub(crate)", "pub(in self)"];
 const GENERICS: [(&str, &str); 4] = [("<T>", ""), ("<T = u8, const N: usize = 3>", ""), ("<'a, T: 'a + Clone>", "where T: Copy, &'a T: Sized"), ("", "")];
 
@@ -227,6 +227,8 @@ fn failing_cases() -> Vec<Case> {
         ("Debug", format!("{foreign} struct X(#[debug(ignore)] #[debug(ignore)] u8);")),
         ("Deref", format!("{foreign} struct X(u8, #[doc = \"f\"] u8);")),
         ("Add", format!("{foreign} enum X {{ #[doc = \"v\"] A }}")),
+        ("Not, Debug, Default", format!("{foreign} #[derive(Clone)] #[repr(u8)] enum X {{ #[default] A {{ #[debug(ignore)] x: u8 }} = 1, #[doc = \"v\"] B = 2 }}")),
+        ("Debug, Add", format!("{foreign} enum X {{ A(#[debug(ignore)] u8), #[allow(unused)] B }}")),
     ] {
         v.push(Case { vector: vec![], attr: attr.to_string(), input: it.clone(), expected: it, kind: "failing-derivation" });
     }
@@ -246,7 +248,7 @@ fn failing_cases() -> Vec<Case> {
 }
 
 /// expected item on an understood list: owned attributes stripped (computed structurally)
-fn strip_owned_text(input: &str, derived: &[String]) -> Result<String, String> {
+pub fn strip_owned_text(input: &str, derived: &[String]) -> Result<String, String> {
     let mut it = syn::parse_str::<syn::Item>(input).map_err(|e| e.to_string())?;
     let strip = |attrs: &mut Vec<syn::Attribute>| attrs.retain(|a| !owned(&format!("#[{}]", a.meta.to_token_stream().to_string().replace(" :: ", "::")), derived));
     match &mut it {
